@@ -110,7 +110,8 @@ func faultNames() []string {
 	for _, f := range faultVals {
 		n = append(n, f.name)
 	}
-	return append(n, "link", "badlink", "emptylink", "linklist", "badlinklist", "nulllist", "textlist", "b64", "b64n24", "b64n23", "b64n25", "b64long", "b64empty")
+	return append(n, "link", "badlink", "emptylink", "linklist", "badlinklist", "nulllist", "textlist", "b64", "b64n24", "b64n23", "b64n25", "b64long", "b64empty",
+		"cut0", "cut1", "cut2", "cut3", "cutlast", "grow1")
 }
 
 // genericEntry mirrors the CBOR schema of a v2 entry as a generic value tree.
@@ -304,11 +305,45 @@ func describeCase(cc c12Case) string {
 func applyFaults(base map[string]interface{}, fs []fault) (map[string]interface{}, bool) {
 	t := deepCopy(base).(map[string]interface{})
 	for _, f := range fs {
+		if d, ok := derivedFaults[f.Val]; ok {
+			// a value derived from the genuine one: hex-text fields (keys, signatures, clock id) cut to their first
+			// 0..3 bytes, without their last byte, or one byte longer. The first bytes of a genuine value are what
+			// a length or framing check looks at ("30" is a DER signature's tag, "04" an uncompressed key's).
+			cur, isText := getPath(t, strings.Split(f.Path, ".")).(string)
+			if !isText || len(cur) < 8 || len(cur)%2 != 0 {
+				return nil, false
+			}
+			if !setPath(t, strings.Split(f.Path, "."), d(cur)) {
+				return nil, false
+			}
+			continue
+		}
 		if !setPath(t, strings.Split(f.Path, "."), faultValue(f.Val)) {
 			return nil, false
 		}
 	}
 	return t, true
+}
+
+var derivedFaults = map[string]func(hexText string) string{
+	"cut0":    func(h string) string { return "" },
+	"cut1":    func(h string) string { return h[:2] },
+	"cut2":    func(h string) string { return h[:4] },
+	"cut3":    func(h string) string { return h[:6] },
+	"cutlast": func(h string) string { return h[:len(h)-2] },
+	"grow1":   func(h string) string { return h + "00" },
+}
+
+func getPath(root map[string]interface{}, path []string) interface{} {
+	var cur interface{} = root
+	for _, k := range path {
+		m, ok := cur.(map[string]interface{})
+		if !ok {
+			return nil
+		}
+		cur = m[k]
+	}
+	return cur
 }
 
 func c12One(p *run.Part, cc c12Case) {
